@@ -52,7 +52,7 @@ RECIPES = {
         level="model_checking",
         monitors={"C01"},
         mc=[MC_QM, MC_CLEAN],
-        runs=[dict(cmd="run", gen="restarts:120,gc-heavy:20,big:8,many-queues:8,names:8,aim-gc:60,aim-roll:30,aim-block:40,aim-batch:10,aim-pin:20,aim-seam:40", policy="always_flush"),
+        runs=[dict(cmd="run", gen="restarts:120,gc-heavy:20,big:8,many-queues:8,names:8,aim-gc:60,aim-roll:30,aim-block:40,aim-batch:10,aim-pin:20,aim-seam:40,aim-stale:10,aim-span:10", policy="always_flush"),
               dict(cmd="run", gen="restarts:30,gc-heavy:6", policy="do_nothing,always_fsync,on_delay_long_flush"),
               dict(cmd="run", genreal="GEN_Wal.cfg", genreal_thorough="GEN_Wal_5.cfg")],
         rule="state after every Drop+open compared with QueueMap's state before it; non-trivial = restarts executed",
@@ -62,8 +62,8 @@ RECIPES = {
         level="model_checking",
         monitors={"C04"},
         mc=[MC_QM, MC_CLEAN, MC_CRASH_SIM],
-        runs=[dict(cmd="run", gen="idle:60,gc-heavy:20,positions:30,aim-gc:80", policy="always_flush"),
-              dict(cmd="run", gen="idle:16,gc-heavy:6,aim-gc:16", policy="always_flush",
+        runs=[dict(cmd="run", gen="idle:60,gc-heavy:20,positions:30,aim-gc:80,aim-stale:20", policy="always_flush"),
+              dict(cmd="run", gen="idle:16,gc-heavy:6,aim-gc:16,aim-stale:4", policy="always_flush",
                    opts={"crash": "process", "tears": "aimed", "cont": True, "max-points": "400"})],
         rule="every append result above the largest position ever assigned in the incarnation; next above it in every "
              "state, after every restart and every crash recovery; non-trivial = appends executed",
